@@ -189,6 +189,16 @@ class Env:
             self.wait_sigints()
         elif k == "signal":
             os.kill(os.getpid(), SIGOTHER)
+        elif k == "sigtrig":
+            # a signal whose Python handler queues events through event_trigger callbacks (a SIGWINCH handler, say):
+            # the events are queued, then the wake-up byte of the signal is seen
+            self.sig_pending = [list(x) for x in step[1]]
+            os.kill(os.getpid(), SIGOTHER)
+            t = real_time.time()
+            while self.sig_pending:
+                if real_time.time() - t > 5:
+                    raise HarnessError("the signal handler did not run")
+                real_time.sleep(0)
         elif k == "tick":
             self.clock.t += max(0, step[1])
         elif k == "late":
@@ -326,7 +336,13 @@ def drive(inp):
     env.blocked_wakeups = 0
     env.sigints_taken = 0
     saved = (ci.time, ci.select, ci.os, ci.getpreferredencoding)
-    old_other = signal.signal(SIGOTHER, lambda *a: None)
+    env.sig_pending = []
+
+    def on_other(*a):
+        while env.sig_pending:
+            i, id_ = env.sig_pending.pop(0)
+            env.ev_cbs[i](id=id_)
+    old_other = signal.signal(SIGOTHER, on_other)
     old_int = signal.getsignal(signal.SIGINT)
     out = []
     try:
@@ -473,10 +489,16 @@ def _tmo(t):
     return "Tn" if t is None else "(T %s)" % _z(t)
 
 
+def _expand(s):
+    if s[0] == "sigtrig":
+        return [["trigger", i, id_] for i, id_ in s[1]] + [["signal", int(SIGOTHER)]]
+    return [s]
+
+
 def _item(it):
     if it[0] == "env":
-        return "Env (%s)" % _step(it[1])
-    return "Req %s [%s]" % (_tmo(it[1]), "; ".join(_step(s) for s in it[2]))
+        return ";\n      ".join("Env (%s)" % _step(x) for x in _expand(it[1]))
+    return "Req %s [%s]" % (_tmo(it[1]), "; ".join(_step(x) for s in it[2] for x in _expand(s)))
 
 
 def _obs(o):
@@ -720,7 +742,7 @@ class _Gen:
 
     def inject(self, during=False):
         rng = self.rng
-        kinds = ["arrive"] * 5 + ["trigger"] * 2 + ["sched"] * 2 + ["sigint", "tick", "tick", "unget", "signal"]
+        kinds = ["arrive"] * 5 + ["trigger"] * 2 + ["sched"] * 2 + ["sigint", "tick", "tick", "unget", "signal", "sigtrig"]
         if self.ntrig:
             kinds += ["ts"] * 3 + ["tsappend"]
         if self.held:
@@ -765,6 +787,10 @@ class _Gen:
             return [["sigint", self.nid("sig")]]
         if k == "signal":
             return [["signal", int(SIGOTHER)]]
+        if k == "sigtrig":
+            evs = [[rng.randrange(self.nev), self.nid("ev")] for _ in range(rng.choice([1, 2, 2, 3]))]
+            self.pend += len(evs)
+            return [["sigtrig", evs]]
         if k == "late":
             d = rng.choice([1, 1, 2, 3])
             self.clock += d
